@@ -100,6 +100,10 @@ class RuleContract:
             r = D.equiv(a[1], b[1])
             if r is False:
                 r = D.equiv(a[1], b[1], order_free=True, index_free=True)
+            if r is False and kind == "up" and type(ref).__name__ in ("Head", "Tail", "BlockwiseHead", "BlockwiseTail"):
+                # head/tail pushed below a sort may return up to n rows where the first/last partition alone
+                # holds fewer (dask only warns about insufficient elements): prefix / suffix accepted
+                r = D.equiv_headtail(a[1], b[1], "head" if "Head" in type(ref).__name__ else "tail", index_free=True)
             if r is False:
                 rc.violations.append((rname, _s(ref), _s(out), f"values differ: ref={D.describe(a[1])} out={D.describe(b[1])}"))
             return out
